@@ -725,6 +725,9 @@ pub fn run(c: &mut Ctx) {
                 continue;
             }
             for tgt in 0..g.octets.len() + 2 {
+                if c.out_of_time() {
+                    break;
+                }
                 let mut m = g.octets.clone();
                 m[p] = 0xC0 | (tgt >> 8) as u8;
                 m[p + 1] = tgt as u8;
@@ -733,6 +736,9 @@ pub fn run(c: &mut Ctx) {
         }
         // every boundary octet at every offset
         for off in 0..g.octets.len() {
+            if c.out_of_time() {
+                break;
+            }
             for v in [0x00u8, 0x01, 0x3F, 0x40, 0x7F, 0x80, 0xBF, 0xC0, 0xC1, 0xFF] {
                 let mut m = g.octets.clone();
                 m[off] = v;
@@ -797,6 +803,9 @@ pub fn run(c: &mut Ctx) {
             let idx = i as u64;
             if c.replaying() && !c.cases("corpus", corpus.len() as u64).contains(&idx) {
                 continue;
+            }
+            if miri && *name == "ancount-ffff" {
+                continue; // 65535 announced records: hours under the interpreter, and nothing in it that the other inputs lack
             }
             one_input(c, "corpus", idx, m, name);
         }
